@@ -108,6 +108,7 @@ func (eng *Engine) VerifyLemma(name string) (em *Emitter, err error) {
 	env := &Env{ex: ex, st: st, old: st, vars: map[string]Val{}, pkg: pkg, where: "lemma " + name}
 	goal := env.evalBool(lm.Expr)
 	ob := &Obligation{Name: "lemma " + name, Kind: "lemma", Func: "lemma " + name, Prefix: len(em.lines), PC: "true", Goal: goal}
+	ex.applyKnownFindings(ob)
 	em.Obls = append(em.Obls, ob)
 	return em, nil
 }
@@ -737,4 +738,24 @@ func (env *Env) mathCall(sf *SpecFunc, args []Val, tenv *Env) Val {
 		return Val{E: name, S: rs, T: rt}
 	}
 	return Val{E: "(" + name + " " + strings.Join(terms, " ") + ")", S: rs, T: rt}
+}
+
+// fileImport resolves an import name as seen from the source file containing pos (honours local import aliases
+// and two imports whose packages have the same name, e.g. go/ast and github.com/goplus/xgo/ast).
+func (eng *Engine) fileImport(pkg *types.Package, pos token.Pos, name string) *types.Package {
+	p := eng.byPath[pkg.Path()]
+	if p == nil || p.TypesInfo == nil {
+		return nil
+	}
+	for _, f := range p.Syntax {
+		if pos != token.NoPos && !(f.Pos() <= pos && pos <= f.End()) {
+			continue
+		}
+		if sc := p.TypesInfo.Scopes[f]; sc != nil {
+			if pn, ok := sc.Lookup(name).(*types.PkgName); ok {
+				return pn.Imported()
+			}
+		}
+	}
+	return nil
 }
